@@ -17,7 +17,7 @@ def enclosing_functions(rel, needle):
             defs.append((i, m.group(1), re.search(r"(\w+)::\s*$", lines[i - 1]).group(1)))
             continue
         m = re.match(r"^(?:[\w:<>\*&\s]+?\s+)?(\w+)::(~?\w+)\s*\(", l)
-        if m and not l.rstrip().endswith(";"):
+        if m and not A.squeeze(l).endswith(";"):        # a statement (also one followed by a comment) is not a definition
             defs.append((i, m.group(2), m.group(1)))
     out = []
     for k, (i, name, qual) in enumerate(defs):
